@@ -34,6 +34,7 @@ type hrun struct {
 	NoNative bool   // uses verifrt.StubFunc: cannot run natively
 	Sched    bool   // schedule-dependent: a native run cannot force the interleaving
 	NoWitness bool  // witness paths are not replayed natively (see the bound text)
+	Witnesses int   // number of witness paths replayed natively (default 3)
 }
 
 // engineReplay re-executes one counterexample deterministically in the
@@ -172,6 +173,7 @@ func cmdCheck(args []string) int {
 		cfg.Harness = r.Fn
 		cfg.PkgPath = r.Pkg
 		cfg.Known = myKnown
+		cfg.Witnesses = r.Witnesses
 		cfg.Deadline = deadline
 		if *tier == "thorough" {
 			cfg.CrossEvery = 50
@@ -335,8 +337,12 @@ func (ev *evidence) validateWitnesses(e *Explorer, r hrun, id string) {
 	e.mu.Lock()
 	ws := e.witnesses
 	e.mu.Unlock()
+	maxW := 3
+	if r.Witnesses > 0 {
+		maxW = r.Witnesses
+	}
 	for k, w := range ws {
-		if k >= 3 {
+		if k >= maxW {
 			break
 		}
 		v := Violation{Label: "(witness)", Harness: r.Fn, Model: w.Model, Choices: w.Choices, AllChoices: w.AllChoices, Trace: w.Trace}
